@@ -355,7 +355,8 @@ class Ctx:
     def __init__(self, pid, tier, seed):
         self.pid, self.tier, self.seed = pid, tier, seed
         self.rng = random.Random((seed, pid).__repr__())
-        self.t0 = time.time()
+        self.t0 = time.time()          # reset when the harness module starts: stream deadlines are relative to it
+        self.t_start = self.t0       # start of the whole run (wall_s)
         self.driver = Driver(pid)
         self.obligations = []
         self.evaluations = 0
@@ -493,7 +494,7 @@ def finish(ctx, level="proof", extra_assumptions=()):
             explanation=ctx.extra.get("explanation", ""),
         ),
         assumptions=list(ctx.assumptions) + list(extra_assumptions),
-        wall_s=round(time.time() - ctx.t0, 2),
+        wall_s=round(time.time() - ctx.t_start, 2),
         violations=len(reported) + (1 if broken and not violations else 0),
     )
     # runs against a scratch copy of the repository (POLYPLY_REPO) must not overwrite real evidence
@@ -503,7 +504,7 @@ def finish(ctx, level="proof", extra_assumptions=()):
         json.dump(evidence, handle, indent=1, default=str)
     print("%s %s seed=%d: obligations %d/%d, evaluations %d (distinct non-trivial %d), correspondence %d (disagree %d), %.1fs -> exit %d"
           % (ctx.pid, ctx.tier, ctx.seed, discharged, obligations, ctx.evaluations, len(ctx.nontrivial),
-             ctx.corr_checked, ctx.corr_disagreements, time.time() - ctx.t0, exit_code))
+             ctx.corr_checked, ctx.corr_disagreements, time.time() - ctx.t_start, exit_code))
     return exit_code
 
 
@@ -566,6 +567,8 @@ def run_check(pid, tier, seed, module, replay=None):
     # 4. correspondence and oracle
     model_ok = ctx.obligations[1]["ok"] if len(ctx.obligations) > 1 else False
     ctx.model_ok = model_ok
+    ctx.t0 = time.time()    # the time the translator, lake and the audit took (cold caches on a fresh machine) must not
+                            # eat the time budgets of the streams
     try:
         module.run(ctx)
     except DriverError as err:
